@@ -180,7 +180,25 @@ def run_scenario(task):
         return graph.get(st, [])
 
     def parse(l):
-        obs = l.result
+        return parse_obs(l.result, False)
+
+    def real(seed):
+        """one run with the real random source: [(time, event key)] up to a horizon of a few expected events"""
+        import random
+        r0 = sum(x[1] for x in succ(st0)) * RATE_UNIT * scale
+        T = tmin + (4.0 / r0 if r0 > 0 else 1.0)
+        random.seed(seed)
+        try:
+            sim = EoN.Gillespie_simple_contagion(G, H, J, dict(IC), rs, tmin=tmin, tmax=T, return_full_data=True)
+            obs = observe.full_data_observation(sim, nodes)
+        except Exception as ex:
+            return {"error": ex}
+        ev, pr = parse_obs(obs, True)
+        if pr:
+            return {"error": RuntimeError("%s: %s" % (pr[0]["kind"], pr[0]["detail"]))}
+        return {"events": ev, "tmin": tmin, "tmax": T, "error": None}
+
+    def parse_obs(obs, with_times):
         pr = []
         back = (lambda s: s) if inv is None else (lambda s: inv.get(s, s))
         ini = tuple(back(obs["hist"][u][1][0]) for u in nodes)
@@ -194,7 +212,7 @@ def run_scenario(task):
         ev = []
         ch = observe.changes(obs, nodes)
         times = [c[0] for c in ch]
-        if times != [tmin + k + 1.0 for k in range(len(times))]:
+        if not with_times and times != [tmin + k + 1.0 for k in range(len(times))]:
             return [], [{"kind": "event-times", "detail": "event times %r under a unit-delay clock from tmin=%r" % (times, tmin)}]
         used = 0
         for (t, u, old, new) in ch:
@@ -206,10 +224,12 @@ def run_scenario(task):
                 ev.append(("S", u, 0, back(new)))
         if used != len(obs["trans"]):
             pr.append({"kind": "transmission-without-change", "detail": "transmissions %r, changes %r" % (obs["trans"], ch)})
+        if with_times:
+            ev = list(zip(times, ev))
         return ev, pr
 
     cls = "%s|%s|%s" % (scn["model"], "directed" if scn["directed"] else "undirected", scn["wmode"])
-    res = walk.walk(fn_full, parse, st0, succ, RATE_UNIT * scale, horizon, max_exp=horizon + 2, max_leaves=task.get("max_leaves", 40000), cls=cls)
+    res = walk.walk(fn_full, parse, st0, succ, RATE_UNIT * scale, horizon, max_exp=horizon + 2, max_leaves=task.get("max_leaves", 40000), cls=cls, real=real)
     problems = res["problems"]
     # rate functions are evaluated at set-up only: once per node / ordered neighbour pair
     narr = 0
@@ -236,4 +256,4 @@ def run_scenario(task):
             problems.append({"kind": "arrays", "cls": cls, "detail": "returned %r, history implies %r" % (la.result, want), "script": l.script})
     for p in problems:
         p.pop("leaf", None)
-    return {"problems": problems, "leaves": res["leaves"], "events": res["events"], "nodes": res["nodes"], "arr": narr}
+    return {"problems": problems, "leaves": res["leaves"], "events": res["events"], "nodes": res["nodes"], "arr": narr, "settled": res.get("settled")}
